@@ -605,6 +605,9 @@ package raft
 //@   loop range appliableOperations invariant [leader] r.state == Leader
 
 //@ func Raft.applyLoop
+//@   requires [started-idle] !r.applying
+//@   loop while r.state != Shutdown invariant [idle] !r.applying
+//@   loop while r.lastApplied < r.commitIndex && r.state != Shutdown invariant [idle] !r.applying
 //@   release before:r.fsm.Apply [order] r.applying && !r.snapshotting && operation.LogIndex == r.lastApplied + 1 && operation.LogIndex <= r.commitIndex && operation.LogTerm == Lterm[operation.LogIndex] && operation.Bytes == Ldata[operation.LogIndex] && Ltyp[operation.LogIndex] == OperationEntry && operation.OperationType == Replicated
 //@   at before-assign r.lastApplied assert [advance] newval == r.lastApplied + 1 && newval <= r.commitIndex
 //@   at call respond(r.configurationResponseCh, assert [config-answer] arg2 == nil && arg1 == *r.configuration
